@@ -1,0 +1,26 @@
+#ifndef HGRAPH_UTIL_VERIF_HOOKS_H
+#define HGRAPH_UTIL_VERIF_HOOKS_H
+
+// Verification hook points. Compiled out unless HGRAPH_VERIF_HOOKS is defined (the
+// verification builder defines it when the environment variable HGRAPH_VERIF=1 is set).
+// A hook point reports a phase name to an installed callback, which may log it and/or
+// delay the calling thread. Hook points sit outside or between critical sections only.
+
+#ifdef HGRAPH_VERIF_HOOKS
+#include <atomic>
+
+namespace hgraph::verif
+{
+    using point_fn = void (*)(const char *);
+    inline std::atomic<point_fn> g_point{nullptr};
+    inline void point(const char *name)
+    {
+        if (auto fn = g_point.load(std::memory_order_acquire)) { fn(name); }
+    }
+}  // namespace hgraph::verif
+#define HGRAPH_VERIF_POINT(name) ::hgraph::verif::point(name)
+#else
+#define HGRAPH_VERIF_POINT(name) ((void)0)
+#endif
+
+#endif  // HGRAPH_UTIL_VERIF_HOOKS_H
